@@ -39,7 +39,8 @@ def gen_iexpr(rnd):
         if rnd.random() < 0.5:
             out.append((1, rnd.choice(IDX)))
         else:
-            c = rnd.choice([2, 3, 4, 10, 12, 100, -1, -2, -3, -17, 0, 1, -0])
+            c = rnd.choice([2, 3, 4, 10, 12, 100, -1, -2, -3, -17, 0, 1, -0, 9007199254740993,
+                            -(2 ** 70 + 3)])
             out.append((c, rnd.choice(IDX)))
     return out
 
@@ -116,7 +117,8 @@ def norm_einsum(st):
 
 def gen_directive(rnd):
     k = rnd.choice(["uniform_shape", "nway_shape", "uniform_occupancy", "flatten", "follow"])
-    size = rnd.choice([1, 4, 16, 128, 16384, "K0", "M1", "N", "sz", "nway", "flatten1"])
+    size = rnd.choice([1, 4, 16, 128, 16384, "K0", "M1", "N", "sz", "nway", "flatten1",
+                       9007199254740993, 2 ** 64 + 1, 10 ** 30 + 7, 0, 7])
     if k == "flatten":
         return ("flatten",)
     if k == "follow":
@@ -162,7 +164,7 @@ def stamp_text(rnd, s):
 
 def gen_level(rnd):
     n = rnd.choice(["System", "PE", "Chip", "L2", "PE_row", "x"])
-    return (n, rnd.choice([None, 0, 1, 7, 15, 127, 1023]))
+    return (n, rnd.choice([None, 0, 1, 7, 15, 127, 1023, 2 ** 60 + 1]))
 
 
 def level_text(rnd, l):
